@@ -158,16 +158,33 @@ def step(model, m, P, t, h, *, cal, relinearize=False):
             H, z = model.linearize(m_pred, t1)
         m_new, P_new, S, K = gain_update(m_pred, P_pred, H, z, R, want_gain=True)
         dm = mpl.F(mpl.mm(np.vectorize(abs, otypes=[object])(K), mpl.M(dz)))
-        return dict(m=m_new, P=P_new, sigma=sig, m_pred=m_pred, P_pred=P_pred, H=H, z=z, S=S, Phi=Phi, Q=Qs, dz=dz,
-                    mean_noise=dm, sigma_noise=sens, amplification=_amplification(model, K, H, Phi, m_pred, t1))
+        return dict(m=m_new, P=P_new, sigma=sig, m_pred=m_pred, P_pred=P_pred, H=H, z=z, S=S, Phi=Phi, Q=Qs, dz=dz, S_cal=S0,
+                    mean_noise=dm, sigma_noise=sens, amplification=_amplification(model, K, H, Phi, m_pred, t1),
+                    dz_dm=_residual_sens(model, Phi, m_pred, t1))
     P_pred = mpl.mm(Phi, P, Phi.T) + Q
     H, z = model.linearize(m_pred, t1)
     m_new, P_new, S, K = gain_update(m_pred, P_pred, H, z, R, want_gain=True)
     sig = whitened_rms(z, S, fact=model.fact, d=model.d) if cal == "mle" else None
     sens = rms_sensitivity(z, S, dz, fact=model.fact, d=model.d) if cal == "mle" else None
     dm = mpl.F(mpl.mm(np.vectorize(abs, otypes=[object])(K), mpl.M(dz)))
-    return dict(m=m_new, P=P_new, sigma=sig, m_pred=m_pred, P_pred=P_pred, H=H, z=z, S=S, Phi=Phi, Q=Q, dz=dz,
-                mean_noise=dm, sigma_noise=sens, amplification=_amplification(model, K, H, Phi, m_pred, t1))
+    return dict(m=m_new, P=P_new, sigma=sig, m_pred=m_pred, P_pred=P_pred, H=H, z=z, S=S, Phi=Phi, Q=Q, dz=dz, S_cal=S,
+                mean_noise=dm, sigma_noise=sens, amplification=_amplification(model, K, H, Phi, m_pred, t1),
+                dz_dm=_residual_sens(model, Phi, m_pred, t1))
+
+
+def _residual_sens(model, Phi, m_pred, t1):
+    """Entrywise bound |d z_k / d m_{k-1}| of the residual z = x[order] - f(x[:order], t1), x = Phi m: (|H0| + |J|) |Phi|.
+    Rounding noise carried by the previous mean reaches the next residual (hence the scale estimates) through it."""
+    _abs = np.vectorize(abs, otypes=[object])
+    n, d, order = model.n, model.d, model.field.nblocks
+    N = n * d
+    mf = mpl.F(m_pred)
+    J = lin.field_jac(model.field, [mf[j * d : (j + 1) * d] for j in range(order)], t1)
+    A = np.zeros((d, N))
+    A[:, : order * d] = np.abs(J)
+    for k in range(d):
+        A[k, order * d + k] += 1.0
+    return A @ np.abs(mpl.F(Phi))
 
 
 def _amplification(model, K, H, Phi, m_pred, t1):
